@@ -271,7 +271,6 @@ func (r *rs) r4() {
 			}
 		}
 	}
-	c.Expect("R4.term", 11)
 }
 
 // line checks a function that reads one LF-terminated line from Decoder.r.
